@@ -153,6 +153,23 @@ class BaseDocument(base.Sectionable):
             if sec._include is not None:
                 sec.include = sec._include
 
+    def clone(self, children=True, keep_id=False):
+        """
+        Clones this Document recursively allowing to work on an independent copy.
+        By default the id of the cloned Document and of all cloned child objects
+        will be set to a new uuid.
+
+        :param children: If True, also clone child Sections recursively.
+        :param keep_id: If this attribute is set to True, the uuids of the
+                        Document and all child objects will remain unchanged.
+        :return: The cloned Document.
+        """
+        obj = super(BaseDocument, self).clone(children, keep_id)
+        if not keep_id:
+            obj.new_id()
+
+        return obj
+
     def validate(self):
         """
         Runs a validation on itself and returns the Validation object.
